@@ -144,3 +144,13 @@ for K in (2, 3):
         QM(('C12',), 'cmpunit.%s.K%d' % (nm, K), 'harness/compare_unit.c', defs=['-DK=%d' % K, '-DKA=%d' % ka], unwind=K + 3, stub=['cJSON_Compare'],
            unwindset=ML(K + 3, 60) + ['memcmp.0:66', 'strcmp.0:5', 'keq.0:5'], cost=K * 10, tiers=('quick', 'thorough') if K == 2 else ('thorough',),
            functions=['cJSON_Compare', 'compare_double', 'get_object_item', 'case_insensitive_strcmp'], timeout=1500)
+
+# ------------------------------------------------------------------ C19 sort
+import math
+for K in (2, 3, 4):
+    for cs in (1, 0):
+        for twice in (0, 1):
+            depth = int(math.ceil(math.log(K, 2)))
+            QM(('C19',), 'sort.%s.K%d%s' % ('cs' if cs else 'ci', K, '.twice' if twice else ''), 'harness/sort.c', defs=['-DK=%d' % K, '-DCS=%d' % cs] + (['-DTWICE'] if twice else []), unwind=K + 1, link=['cJSON.c'],
+               unwindset=ML(K + 3, 40) + ['sort_list:%d' % depth, 'strcmp.0:4', 'kcmp.0:4'], cost=K * K * (1 + twice), tiers=('quick', 'thorough') if (K == 2 or (K == 3 and not twice)) else ('thorough',),
+               functions=['cJSONUtils_SortObject', 'cJSONUtils_SortObjectCaseSensitive', 'sort_object', 'sort_list', 'compare_strings'], timeout=1800, mem_gb=24)
